@@ -16,6 +16,8 @@ from .core import S, signatures
 # ----------------------------------------------------------------------------- requests
 def line(req):
     op = req[0]
+    if op.startswith('rt:'):
+        return 'rt-only ' + repr(req)[:300]
     if op == 'merge':
         return 'merge %d %s' % (len(req[1]), ' '.join(core.sig_line(d) for d in req[1]))
     if op == 'embed':
@@ -38,6 +40,16 @@ def line(req):
     if op == 'accepts':
         _, n, K, ps = req
         return 'accepts %d %s %s' % (n, core.names_line(K), core.params_line(ps))
+    if op in ('pyeq', 'pyne', 'hasheq'):
+        from . import real_rt
+        return '%s %s %s' % (op, real_rt.obj_line(req[1]), real_rt.obj_line(req[2]))
+    if op == 'sched':
+        return 'threads %d %s - - - %s (line schedule %s)' % (req[1], req[2], '?', '.'.join(str(x) for x in req[3]))
+    if op == 'cleanup':
+        return 'cleanup ' + ' '.join('-' if x is None else str(x) for x in req[1:])
+    if op == 'cache':
+        _, variant, ops = req
+        return 'cache weakValue ' + (','.join(ops) or '_')
     if op == 'partialsig':
         _, n, kw, ps = req
         kws = '.'.join('%d=%d' % (core.NAMES.id(k), v) for k, v in kw) or '_'
@@ -85,6 +97,21 @@ def parse_model(req, ml):
     toks = ml.split()
     if not toks or toks[0] == 'bad-op':
         raise core.HarnessError('driver answered %r to %r' % (ml, line(req)))
+    if op in ('pyeq', 'pyne', 'hasheq'):
+        if toks[0] == 'ok':
+            return ('ok', toks[1] == 'true')
+        if toks[0] == 'unhashable':
+            return ('unhashable',)
+        return ('err', toks[1])
+    if op == 'sched':
+        o = lambda x: None if x == '-' else int(x)  # noqa
+        saw = tuple(None if x == '-' else x == 'true' for x in toks[6].split(','))
+        return ('ok', o(toks[1]), toks[5] == 'true', saw)
+    if op == 'cleanup':
+        o = lambda x: None if x == '-' else int(x)  # noqa
+        return ('ok', o(toks[1]), o(toks[2]), o(toks[3]), o(toks[4]), toks[5] == 'true', int(toks[6]))
+    if op == 'cache':
+        return ('ok', tuple(int(x) for x in toks[1].split('.')) if toks[1] != '_' else ())
     if op in ('bindcall', 'bindcallsig', 'deccall', 'deccallm'):
         if toks[0] == 'typeerror':
             return ('typeerror',)
@@ -164,9 +191,13 @@ def real(req, plain=False):
     if op == 'accepts':
         _, n, K, ps = req
         return core.real_accepts(ps, n, K)
-    from . import real_mod
+    from . import real_mod, real_rt
+    if op.startswith('rt:'):
+        return real_rt.RT[op[3:]](req)
     if op in real_mod.OPS:
         return real_mod.OPS[op](req)
+    if op in real_rt.OPS:
+        return real_rt.OPS[op](req)
     raise core.HarnessError('unknown op %r' % (op,))
 
 
@@ -244,12 +275,33 @@ def process_chunk(task):
     oracle = getattr(oracles, oraclename) if oraclename else None
     reqs = list(streams.STREAMS[stream](*chunk_args, **opts.get('kw', {})))
     res = ChunkResult()
-    lines = [line(r) for r in reqs]
-    model_raw = core.run_driver(lines)
+    # requests whose op starts with 'rt:' exercise runtime behaviour that has no model counterpart
+    # (validated, not proved): they go to the oracle only
     plain = bool(opts.get('plain'))
-    for r, ml in zip(reqs, model_raw):
-        ra = real(r, plain=plain)
-        ma = parse_model(r, ml)
+    # 'sched': the model replays the order of shared accesses *logged by the real run*, so the real side runs first
+    pre = {}
+    for i, r in enumerate(reqs):
+        if r[0] == 'sched':
+            from . import real_rt
+            d = real_rt.rt_sched(r)
+            pre[i] = (('ok', d['final'], d['done'], tuple(d['saw'])),
+                      'threads %d %s - - - %s' % (r[1], '-' if r[2] is None else r[2],
+                                                  '.'.join(str(x) for x in d['model_schedule']) or '_'), d)
+    lines = [pre[i][1] if i in pre else (line(r) if not r[0].startswith('rt:') else 'validate _')
+             for i, r in enumerate(reqs)]
+    model_raw = core.run_driver(lines)
+    for idx, (r, ml) in enumerate(zip(reqs, model_raw)):
+        if idx in pre:
+            ra = pre[idx][0]
+            r = r + (tuple(pre[idx][2]['events']),)
+        else:
+            ra = real(r, plain=plain)
+        if r[0].startswith('rt:'):
+            ma = ra
+            lines[res.n] = 'rt-only ' + repr(r)[:200]
+            res.counters['runtime-only'] += 1
+        else:
+            ma = parse_model(r, ml)
         res.n += 1
         res.counters[r[0]] += 1
         if isinstance(ra, tuple):
